@@ -816,6 +816,10 @@ static TPM_RESULT TPM2_SetState(enum TPMLIB_StateType st,
             /* load permanent state first */
             rc = TPM2_GetState(TPMLIB_STATE_PERMANENT,
                                &permanent, (uint32_t *)&permanent_len);
+            if (rc == TPM_RC_SUCCESS && permanent == NULL) {
+                /* permanent state is hidden: SetState(PERMANENT, NULL) */
+                rc = TPM_FAIL;
+            }
             if (rc == TPM_RC_SUCCESS) {
                 ptr = permanent;
                 rc = PERSISTENT_ALL_Unmarshal(&ptr, &permanent_len);
